@@ -845,9 +845,10 @@ pub fn gen_use_stmt(g: &mut G<'_>) -> (String, String) {
             let n = g.usize_in(1, 10);
             (0..n).map(|_| *g.pick(&['a', 'b', 'z', '_', '0', '9', 'X', 'é'])).collect()
         }
-        _ => g.pick(&["db", "my db", "a;b", "x-y", "test"]).to_string(),
+        // (quoted identifiers may hold any character; MySQL only forbids a trailing blank)
+        _ => g.pick(&["db", "my db", "a;b", "x-y", "test", "a;", ";a", ";", " a", "\ta", "a;;", ";a b;", "a.b", "use", "é;"]).to_string(),
     };
-    let quoted = name.contains(' ') || name.contains(';') || name.contains('-') || g.chance(1, 3);
+    let quoted = name.chars().any(|c| !(c.is_alphanumeric() || c == '_')) || g.chance(1, 3);
     let kw = if g.coin() { "USE" } else { "use" };
     let mut q = format!("{} ", kw);
     if g.chance(1, 5) {
